@@ -13,7 +13,7 @@ def obligations(tier: str) -> list[Ob]:
         harness_ob(
             "body_reference_chains", "C20_refs.py", tier, timeout=120 if q else 400, cpus=1,
             encoded=["openapi_python_client.parser.bodies:_resolve_reference"],
-            bounds={"reference table": "3 entries, each a reference / the body / dangling / absent; start: any of them or None"},
+            bounds={"reference table": "3 entries, each a reference / the body / dangling / absent; start: any of them or None", "malformed references": "7 spellings, direct or behind an alias"},
         ),
         harness_ob(
             "resolvers_ref_equals_inline", "C20_equiv.py", tier, timeout=330 if q else 900, cpus=6,
